@@ -331,7 +331,7 @@ impl OExec {
         for i in 0..self.p.len() {
             let q = self.sim.query(&self.ops_c.clone(), "is_operator", (self.p[i].clone(),).into_val(&env));
             let qv = q.val().and_then(|v| bool::try_from(v).ok());
-            if !ctx.check(qv == Some(self.m.ops.contains(&i)), &["C17"], "invariant/operator-set-differs", || format!("is_operator(p{}) = {:?}, history says {}", i, qv, self.m.ops.contains(&i))) {
+            if !ctx.check(qv == Some(self.m.ops.contains(&i)), &["C17", "C06"], "invariant/operator-set-differs", || format!("is_operator(p{}) = {:?}, history says {}", i, qv, self.m.ops.contains(&i))) {
                 return;
             }
         }
@@ -347,7 +347,7 @@ impl OExec {
         }
         let o = self.sim.query(&self.ops_c.clone(), "owner", SVec::new(&env));
         let ov = o.val().and_then(|v| Address::try_from_val(&env, &v).ok());
-        ctx.check(ov.as_ref() == Some(&self.p[self.m.owner]), &["C06"], "invariant/owner-differs", || "owner() differs".into());
+        ctx.check(ov.as_ref() == Some(&self.p[self.m.owner]), &["C06", "C17"], "invariant/owner-differs", || "owner() differs".into());
     }
 }
 
